@@ -30,6 +30,9 @@ pub struct CaseOpts {
     pub o2: bool,
     /// O3a: failures found by MUST walks must be reported by loom (classes listed)
     pub o3_must_classes: Vec<FailClass>,
+    /// judge every explored iteration for unreported races (largest hb) even where completeness
+    /// (o3_must_classes) is not demanded
+    pub race_iter: bool,
     /// O3b: failures reported by loom (classes listed) must be justified by the MAY machine
     pub o3_may_classes: Vec<FailClass>,
     /// any loom failure outside o3_may_classes / expected classes is a violation (internal panics)
@@ -52,6 +55,7 @@ impl Default for CaseOpts {
             o1: None,
             o2: false,
             o3_must_classes: vec![],
+            race_iter: false,
             o3_may_classes: vec![],
             internal_is_violation: true,
             ignore_classes: vec![],
@@ -245,7 +249,7 @@ pub fn run_case(p: &Program, cfg: &Config, opts: &CaseOpts, rng: &mut Rng) -> Ca
     let do_o2 = opts.o2;
     let do_o4 = opts.o4;
     let do_tls = opts.tls_lazy;
-    let do_race_iter = opts.o3_must_classes.iter().any(|c| *c == FailClass::Race);
+    let do_race_iter = opts.race_iter || opts.o3_must_classes.iter().any(|c| *c == FailClass::Race);
     let dump = std::env::var("VERIF_DUMP").is_ok();
     let may = MachineCfg::may();
     let may2 = may.clone();
